@@ -47,6 +47,12 @@ CHECKS = {
         note="Rescale wrappers only over bounded boxes with dyadic bounds; adapters are checked by the peers scenario.",
         ref="5 (C13)",
     ),
+    "C02": dict(
+        oracle="invariants after every step of adversarially driven auto-reset rollouts of the built-in environments; replay digests for Python-state independence",
+        text="Every built-in environment (classic control with both solvers, MuJoCo, G1 in the thorough tier) and wrapper stacks over them are rolled out for hundreds of steps under a seeded adversary (random, corner holds, corner alternation); membership of every observation in the declared space, dtypes, finiteness and flag types are checked at every step. Exploration.",
+        note="Bounded horizon (50..600 steps per rollout); MuJoCo/G1 compile costs limit the quick tier to 3 MuJoCo environments.",
+        ref="5 (C02)",
+    ),
     "C03": dict(
         oracle="RefGAE history oracle over rollouts recorded by the real on-policy pipeline, per node",
         text="Seeded simulation of the real PPO/A2C/REINFORCE reset+iteration on drawn finite MDPs with every done pattern scheduled (termination, time-out, both, first/last step, consecutive); the GAE definition of the statement is re-evaluated in float64 per node on what the pipeline recorded. Exploration: clean batches are evidence, not proof; the all-real-sequences identity is decided only on simulated histories.",
